@@ -235,6 +235,26 @@ CLAIMED = {
              "sys_quiet only. K-epoll is an assumption. Axioms: propext, Classical.choice, Quot.sound.",
         technique="Lean 4 invariant proof by induction over reachable xpoll states + differential correspondence against the real kernel + live-socket measurement",
         ref="DESIGN.md §5 C16"),
+    "C04": dict(
+        category="proof",
+        text="Lean 4 proofs of the wake-up invariant layer by layer (the safety form of 'no lost wake-up'), for every state/history: "
+             "framing (tcp, tls): while any byte of an accepted message is buffered the lower socket is asked for SENDABLE whatever "
+             "the application awaits, the application's own condition is always passed down, and nothing extra is asked when idle "
+             "(C04_pending_flush_is_watched, C04_condition_passed_down, C04_idle_asks_nothing_extra); each write the lower layer "
+             "accepts strictly decreases the bytes left (C04_flush_progress); btcp: awaited input/output is registered, terminal "
+             "states and a completed resolution ring the bell (C04_btcp_wake); connect phase: a waiting track always has its "
+             "descriptor registered and timer armed (C04_connect_phase_watched, from the Tconnect invariant); xpoll: a ringing "
+             "bell or a true requested event makes the socket fd readable (C16_readable_when_met); xcm.c: the blocking forms "
+             "return at the first success after any number of refusals each followed by a wake-up (msgBsend_returns, "
+             "socketFinish_returns, C04_blocking_send_returns). Tie: the unit correspondences of these models, plus sys_loop: "
+             "two applications following the documented protocol to the letter on all seven transports while send()/recv() "
+             "below XCM and OpenSSL return EAGAIN/short counts at random, with a stall watchdog; the blocking forms in threads.",
+        note="proof-partial: (1) liveness over real time needs K-epoll and K-progress (assumptions) and is measured by sys_loop "
+             "(watchdog 4 s / 40 s), not proved; (2) the composition of the per-layer invariants into one end-to-end theorem "
+             "(Link-level 'every accepted message is eventually delivered') is not mechanised; (3) btls (OpenSSL wants/pending) "
+             "and the resolver's own descriptors are covered by sys_loop only.",
+        technique="Lean 4 per-layer wake-up invariants and decreasing measures + differential correspondence + fault-injected live event loops with a stall watchdog",
+        ref="DESIGN.md §5 C04"),
 }
 
 PENDING_REASON = "not yet built in this round: no check is claimed for it (the design in DESIGN.md §5 stands; " \
